@@ -316,6 +316,37 @@ E('recorddiff', lambda a, b: etl.recorddiff(a, b), arity=2, second='same', hdr=T
 E('hashcomplement', lambda a, b: etl.hashcomplement(a, b), arity=2, second='same', stream=0, group='setops', ragged=False)
 E('hashintersection', lambda a, b: etl.hashintersection(a, b), arity=2, second='same', stream=0, group='setops', ragged=False)
 
+# ---------------------------------------------------------------------------
+# presorted=True forms: the operator reads its inputs directly instead of through an internal sort() (which would hand it
+# fresh tuples), so the input's own header and row objects reach the operator's code.  The standard inputs are not sorted by
+# f0; what such a call returns is then unspecified but still deterministic, which is all C01/C02/C03/C20 rely on.
+for _n in ('join', 'leftjoin', 'rightjoin', 'outerjoin', 'antijoin', 'lookupjoin'):
+    E(_n + '-presorted', (lambda f: lambda a, b: f(a, b, key='f0', presorted=True))(getattr(etl, _n)), arity=2, group='joins', ragged=False)
+for _n in ('complement', 'intersection'):
+    E(_n + '-presorted', (lambda f: lambda a, b: f(a, b, presorted=True))(getattr(etl, _n)), arity=2, second='same',
+      group='setops', ragged=False)
+E('diff-presorted', lambda a, b: etl.diff(a, b, presorted=True), arity=2, second='same', kind='multi', group='setops', ragged=False)
+E('mergesort-presorted', lambda a, b: etl.mergesort(a, b, key='f0', presorted=True), arity=2, group='sort')
+E('merge-presorted', lambda a, b: etl.merge(a, b, key='f0', presorted=True), arity=2, group='reductions', ragged=False)
+for _n in ('duplicates', 'unique', 'conflicts', 'mergeduplicates', 'groupselectfirst', 'groupselectlast'):
+    E(_n + '-presorted', (lambda f: lambda s: f(s, 'f0', presorted=True))(getattr(etl, _n)),
+      group='dedup' if _n in ('duplicates', 'unique', 'conflicts') else 'reductions', ragged=False)
+E('distinct-presorted', lambda s: etl.distinct(s, presorted=True), group='dedup', ragged=False)
+E('distinct-key-count-presorted', lambda s: etl.distinct(s, 'f0', count='n', presorted=True), group='dedup', ragged=False)
+E('distinct-count-presorted', lambda s: etl.distinct(s, count='n', presorted=True), group='dedup', ragged=False)
+E('groupselectmin-presorted', lambda s: etl.groupselectmin(s, 'f0', 'f1', presorted=True), group='reductions', ragged=False)
+E('groupselectmax-presorted', lambda s: etl.groupselectmax(s, 'f0', 'f1', presorted=True), group='reductions', ragged=False)
+E('aggregate-len-presorted', lambda s: etl.aggregate(s, 'f0', len, presorted=True), group='reductions', ragged=False)
+E('aggregate-multi-presorted', lambda s: etl.aggregate(s, 'f0', OrderedDict([('n', len), ('l', ('f1', list))]), presorted=True),
+  group='reductions', ragged=False)
+E('rowreduce-presorted', lambda s: etl.rowreduce(s, 'f0', lambda k, rows: [k, len(list(rows))], header=['f0', 'n'], presorted=True),
+  group='reductions', ragged=False)
+E('fold-presorted', lambda s: etl.fold(s, 'f0', lambda a, b: '%s%s' % (a, b), value='f1', presorted=True), group='reductions', ragged=False)
+E('rowgroupmap-presorted', lambda s: etl.rowgroupmap(s, 'f0', lambda k, rows: [(k, len(list(rows)))], header=['f0', 'n'], presorted=True),
+  group='maps', ragged=False)
+E('pivot-presorted', lambda s: etl.pivot(s, 'f0', 'f1', 'f2', list, presorted=True), group='reshape', hdrdep=True, ragged=False)
+E('unjoin-presorted', lambda s: etl.unjoin(s, 'f2', key='f1', presorted=True), kind='multi', group='joins', ragged=False)
+
 
 def views():
     return [e for e in ENTRIES.values() if e.kind == 'view']
